@@ -60,7 +60,9 @@ Definition c12_atomic (c : wcase) : bool :=
    61 C11 effect; 62 C12 atomicity *)
 Definition check_wcase (c : wcase) : list nat :=
   let '(mtrace, mstore, mok) :=
-    if wc_tx c then tosql_tx (wc_opts c) (wc_table c) (wc_frame c) (wc_store c) (wc_fault c)
+    if wc_tx c then
+      (if Nat.eqb (wc_cancel c) 0 then tosql_tx (wc_opts c) (wc_table c) (wc_frame c) (wc_store c) (wc_fault c)
+       else tosql_tx_c (wc_opts c) (wc_table c) (wc_frame c) (wc_store c) (wc_fault c) (wc_cancel c))
     else tosql (wc_opts c) (wc_table c) (wc_frame c) (wc_store c) (wc_fault c) (wc_cancel c) in
   (if list_eqb call_same mtrace (wc_log c) then [] else [1%nat])
   ++ (if wc_tx c || store_same mstore (wc_final c) then [] else [2%nat])
